@@ -209,6 +209,12 @@ func (x *Exec) mathFacts(terms []*Term) []*Term {
 					Implies(Not(mk("xisnan", SBool, arg)), And(Not(mk("xisnan", SBool, a)), mk("xle", SBool, mk("fin", SXR, zero), a))))
 			case "rfn_erfc":
 				out = append(out, Gt(a, zero), Lt(a, mk("2.0", SReal)))
+			case "rfn_pow":
+				out = append(out, Implies(Gt(arg, zero), Gt(a, zero)))
+			case "xfn_pow":
+				// positive base: the result is +Inf or a finite non-negative number (0 on underflow), or NaN for a NaN exponent
+				out = append(out, Implies(And(mk("xisfin", SBool, arg), Gt(mk("val", SReal, arg), zero), Not(mk("xisnan", SBool, a.Args[1]))),
+					Or(Eq(a, mk("pinf", SXR)), And(mk("xisfin", SBool, a), Ge(mk("val", SReal, a), zero)))))
 			case "xfn_log":
 				va := mk("val", SReal, arg)
 				out = append(out,
